@@ -1,24 +1,30 @@
 #!/bin/bash
-# controls.sh: apply every behaviour-preserving control patch (controls/*.patch) to /repo, run ALL
-# registered quick checks, undo. No check may raise an alarm. Output: selftest/controls_result.md
+# controls.sh: apply every control patch - behaviour-preserving (controls/*.patch) and
+# property-conforming (controls/conforming/*.patch) - run ALL registered quick checks, undo.
+# No check may raise an alarm. Output: selftest/controls_result.md
+# usage: controls.sh            all controls, result file rewritten
+#        controls.sh R2-A conforming/Q4-A   only those, results appended
+# CTL_REPO=<side worktree of /repo at HEAD> applies the patches there and runs the checks with
+# VERIF_REPO (so that /repo stays free for something else); default: /repo itself.
 cd /verif
 out=selftest/controls_result.md
-# usage: controls.sh            all controls, result file rewritten
-#        controls.sh R2-A R6-C  only those, results appended
+R=${CTL_REPO:-/repo}
+[ "$R" != /repo ] && export VERIF_REPO=$R
 if [ $# -eq 0 ]; then
-  echo "# Behaviour-preserving controls: every quick check on each (none may alarm)" > $out
+  echo "# Controls: every quick check on each behaviour-preserving / property-conforming change (none may alarm)" > $out
   set -- $(cd controls && ls *.patch conforming/*.patch | sed 's/\.patch$//')
 fi
 for name in "$@"; do
   p=/verif/controls/$name.patch
-  [ -n "$(git -C /repo status --porcelain)" ] && { echo "/repo not clean"; exit 3; }
-  git -C /repo apply "$p" || { echo "$p does not apply" >> $out; continue; }
+  [ -n "$(git -C $R status --porcelain)" ] && { echo "$R not clean"; exit 3; }
+  git -C $R apply "$p" || { echo "- $name: patch does not apply" | tee -a $out; continue; }
   bad=""
   for id in $(python3 -c "import json;print(' '.join(c['property_id'] for c in json.load(open('MANIFEST.json'))['checks']))"); do
     ./check $id quick >/tmp/ctl.$$ 2>&1; rc=$?
     if [ $rc -ne 0 ]; then bad="$bad $id(rc=$rc: $(grep -m1 -E '^violation|INCONCLUSIVE' /tmp/ctl.$$ | cut -c1-160))"; fi
   done
-  git -C /repo checkout -- . ; git -C /repo clean -fdq
-  git checkout -- evidence; rm -rf replay /tmp/ctl.$$
+  git -C $R checkout -- . ; git -C $R clean -fdq
+  [ "$R" = /repo ] && git checkout -- evidence
+  rm -rf /tmp/ctl.$$
   echo "- $name: ${bad:-all 20 checks held}" | tee -a $out
 done
